@@ -3,6 +3,7 @@ package main
 // Streams of the packet layer (C01, C02, C03 b/c, C09, C10, C11, C18).
 
 import (
+	"bytes"
 	"encoding/binary"
 	"reflect"
 
@@ -140,11 +141,17 @@ func emitCtor(c ctor) {
 		if err != nil {
 			return vErr(append([]V{Bool(!errNonNil)}, projErrTail(err)...)...)
 		}
+		if c.fr == 0 && emitted%4 == 2 { // a caller may choose the transaction id, 0 included
+			pokeTransactionID(req, []uint16{0, 0, 1, 0xFFFF, 0x0100, 0x8000}[(emitted/4)%6])
+		}
 		_, p := projReq(req)
 		if c.fr == 0 && emitted%3 == 1 {
 			pokeProtocolID(req, uint16(1+emitted%65000))
 		}
 		raw := req.Bytes()
+		if again := req.Bytes(); !bytes.Equal(raw, again) { // encoding is a function of the request
+			return L(I(98), B(raw), B(again))
+		}
 		ob := B(raw)
 		for i := range raw { // a frame handed to the caller is the caller's: later frames must not depend on it
 			raw[i] ^= 0x5A
@@ -161,6 +168,21 @@ func emitCtor(c ctor) {
 // pokeProtocolID writes a non-zero value into the exported MBAPHeader.ProtocolID field of a TCP
 // request (callers set TransactionID through the same exported header): the wire bytes must carry
 // protocol id 0 regardless
+func pokeTransactionID(req packet.Request, v uint16) {
+	defer func() { _ = recover() }()
+	rv := reflect.ValueOf(req)
+	if rv.Kind() == reflect.Ptr {
+		rv = rv.Elem()
+	}
+	h := rv.FieldByName("MBAPHeader")
+	if h.IsValid() {
+		f := h.FieldByName("TransactionID")
+		if f.IsValid() && f.CanSet() {
+			f.SetUint(uint64(v))
+		}
+	}
+}
+
 func pokeProtocolID(req packet.Request, v uint16) {
 	defer func() { _ = recover() }()
 	rv := reflect.ValueOf(req)
@@ -309,6 +331,9 @@ func streamRtReq(seed uint64, thorough bool) {
 		if err != nil || req == nil {
 			return
 		}
+		if c.fr == 0 && emitted%5 == 3 { // transaction ids chosen by the caller, 0 included
+			pokeTransactionID(req, []uint16{0, 0, 1, 0xFFFF, 0x0100}[(emitted/5)%5])
+		}
 		tid, _ := projReq(req)
 		bytes := req.Bytes()
 		for _, w := range parserCodes(c, int(req.FunctionCode())) {
@@ -323,6 +348,42 @@ func streamRtReq(seed uint64, thorough bool) {
 		}
 	}
 	genCtors(r, thorough, gen)
+	// RTU requests whose own last two bytes happen to be the CRC of the bytes before them: handed to
+	// a per-function parser without the trailer they still are that request (a parser must not guess
+	// from the content whether a trailer is present)
+	nself := 150
+	if thorough {
+		nself = 3000
+	}
+	for i := 0; i < nself; i++ {
+		u, start := r.u8(), r.edge16()
+		// FC6: the value
+		v := crcTrailer([]byte{u, 6, byte(start >> 8), byte(start)})
+		gen(cWReg(1, u, start, v))
+		// FC16: the last register
+		nreg := 1 + r.intn(123)
+		data := r.bytes(2 * nreg)
+		head := append([]byte{u, 16, byte(start >> 8), byte(start), byte(nreg >> 8), byte(nreg), byte(2 * nreg)}, data[:2*nreg-2]...)
+		copy(data[2*nreg-2:], crcTrailer(head))
+		gen(cWRegs(1, u, start, data))
+		// FC23: the last written register
+		rs, rq := r.edge16(), uint16(1+r.intn(125))
+		nreg = 1 + r.intn(121)
+		data = r.bytes(2 * nreg)
+		head = append([]byte{u, 23, byte(rs >> 8), byte(rs), byte(rq >> 8), byte(rq), byte(start >> 8), byte(start), byte(nreg >> 8), byte(nreg), byte(2 * nreg)}, data[:2*nreg-2]...)
+		copy(data[2*nreg-2:], crcTrailer(head))
+		gen(cRW(1, u, rs, rq, start, data))
+		// FC15: the last sixteen coils
+		nb := 2 + r.intn(200)
+		packed := r.bytes(nb)
+		head = append([]byte{u, 15, byte(start >> 8), byte(start), byte((8 * nb) >> 8), byte(8 * nb), byte(nb)}, packed[:nb-2]...)
+		copy(packed[nb-2:], crcTrailer(head))
+		coils := make([]bool, 8*nb)
+		for k := range coils {
+			coils[k] = packed[k/8]&(1<<(k%8)) != 0
+		}
+		gen(cWCoils(1, u, start, coils))
+	}
 }
 
 // ---------- frames and their mutations ----------
@@ -558,6 +619,25 @@ func streamParse3(seed uint64, thorough bool) {
 		for _, v := range variants {
 			s1, s2 := junk()
 			for _, w := range codes {
+				emitParse3(w, v, s1, s2)
+			}
+		}
+	}
+	// (a') recogniser-sized strings: exactly the exception frame sizes (9 bytes behind an MBAP
+	// header, 3 and 5 bytes for RTU with a correct and an incorrect trailer), every function byte
+	for fn := 0; fn < 256; fn++ {
+		u, code := r.u8(), byte(r.pick([]int{0, 1, 2, 4, 11, 0xff, int(r.u8())}))
+		t := make([]byte, 9)
+		putU16(t, 0, r.u16())
+		putU16(t, 4, uint16(r.pick([]int{3, 3, 3, 2, 4})))
+		t[6], t[7], t[8] = u, byte(fn), code
+		body := []byte{u, byte(fn), code}
+		good := append(append([]byte(nil), body...), crcTrailer(body)...)
+		bad := append([]byte(nil), good...)
+		bad[3+r.intn(2)] ^= byte(1 << r.intn(8))
+		for _, v := range [][]byte{t, body, good, bad} {
+			s1, s2 := junk()
+			for _, w := range []int{403, 404, 405, 200, 201, 202, 300, 301, 302} {
 				emitParse3(w, v, s1, s2)
 			}
 		}
@@ -897,7 +977,13 @@ func randomResp(r *rng) respCase {
 }
 
 func emitRtResp(fr int, tid uint16, p respCase, codes []int) {
-	enc := respBytes(fr, tid, p)
+	var enc []byte
+	if o := guard(func() V { enc = respBytes(fr, tid, p); return nil }); o != nil {
+		for _, w := range codes {
+			emit("rt_resp", L(I(w), I(fr), p.proj(), I(int(tid))), o)
+		}
+		return
+	}
 	for _, w := range codes {
 		emit("rt_resp", L(I(w), I(fr), p.proj(), I(int(tid))), L(B(enc), parseAny(w, withCap(enc, nil))))
 	}
@@ -1231,6 +1317,30 @@ func streamCoils(seed uint64, thorough bool) {
 		c := coilPattern(r, n, 3)
 		emit("coils_to_bytes", L(B(boolBytes(c))), guard(func() V { return B(packet.CoilsToBytes(c)) }))
 	}
+	// one coil table written in chunks (sub-slices share the table's backing array): every chunk is
+	// packed and read back as the table held it before the first call
+	ntab := 60
+	if thorough {
+		ntab = 600
+	}
+	for t := 0; t < ntab; t++ {
+		size := 9 + r.intn(120)
+		table := coilPattern(r, size, 1+r.intn(3))
+		orig := append([]bool(nil), table...)
+		base := uint16(r.intn(60000))
+		fr := r.intn(2)
+		for a := 0; a < size; {
+			b := a + 1 + r.intn(17)
+			if b > size {
+				b = size
+			}
+			chunk := table[a:b]
+			want := orig[a:b]
+			emit("coils_to_bytes", L(B(boolBytes(want))), guard(func() V { return B(packet.CoilsToBytes(chunk)) }))
+			emit("coil_readback", L(B(boolBytes(want)), I(int(base)+a), I(fr)), coilReadback(fr, base+uint16(a), chunk))
+			a = b
+		}
+	}
 	// write / read back through a device that follows the specification's layout
 	for n := 1; n <= 1968; n++ {
 		if !thorough && n > 40 && n%29 != 0 && n < 1960 {
@@ -1244,6 +1354,18 @@ func streamCoils(seed uint64, thorough bool) {
 		}
 		for _, frm := range map[bool][]int{true: {0, 1}, false: {fr}}[n >= 1960 || n <= 16] {
 			fr := frm
+			o := coilReadback(fr, start, coils)
+			emit("coil_readback", L(B(boolBytes(coils)), I(int(start)), I(fr)), o)
+		}
+	}
+}
+
+// coilReadback: write [coils] at [start] through the library's constructor to a device that follows
+// the specification's layout, read the same range back through the library's response accessor
+func coilReadback(fr int, start uint16, coils []bool) V {
+	n := len(coils)
+	{
+		{
 			o := guard(func() V {
 				var data []byte
 				if fr == 0 {
@@ -1284,7 +1406,7 @@ func streamCoils(seed uint64, thorough bool) {
 				}
 				return B(got)
 			})
-			emit("coil_readback", L(B(boolBytes(coils)), I(int(start)), I(fr)), o)
+			return o
 		}
 	}
 }
@@ -1464,4 +1586,21 @@ func rebuildTCP(r *rng, c ctor) ctor {
 			return cSrvID(0, r.u8())
 		}
 	}
+}
+
+// crcTrailer: the two CRC bytes (low byte first) of the serial-line specification, computed bit by
+// bit here so that generated inputs do not depend on the library's own CRC16
+func crcTrailer(b []byte) []byte {
+	crc := uint16(0xFFFF)
+	for _, x := range b {
+		crc ^= uint16(x)
+		for i := 0; i < 8; i++ {
+			if crc&1 != 0 {
+				crc = crc>>1 ^ 0xA001
+			} else {
+				crc >>= 1
+			}
+		}
+	}
+	return []byte{byte(crc), byte(crc >> 8)}
 }
